@@ -669,7 +669,13 @@ func pPresenceTest(info *types.Info, cond ast.Expr) bool {
 			low := strings.ToLower(txt)
 			if (strings.Contains(low, "levelp") || strings.Contains(low, "ringp") || strings.Contains(low, "pcount") || strings.Contains(low, ".p.level()")) &&
 				(y.Op == token.GTR || y.Op == token.GEQ || y.Op == token.NEQ || y.Op == token.LSS || y.Op == token.EQL) {
-				found = true
+				// a test against "no P": the other side is -1, 0, 1 or nil
+				for _, side := range []ast.Expr{y.X, y.Y} {
+					st := exprString(unparen(side))
+					if st == "-1" || st == "0" || st == "1" || st == "nil" {
+						found = true
+					}
+				}
 			}
 		case *ast.Ident:
 			if strings.Contains(strings.ToLower(y.Name), "hasmodulusp") {
@@ -1956,6 +1962,90 @@ func init() {
 			for _, o := range core.Floor("MULDEG", nil, "InitOutputBinaryOp calls in multiplications", c.Stats["muldeg_sites"], 8) {
 				out = append(out, withProps(o, "C05", "C06"))
 			}
+			return out
+		}})
+}
+
+// ---- PCOUNT
+//
+// `levelP+1` is the number of auxiliary primes — zero when there is no auxiliary modulus (levelP == -1). A function
+// that shows it handles P-less parameters (it tests levelP > -1, ringP != nil, ...) and passes `levelP+1` to a
+// parameter that counts the primes per digit (nbPi, pCount) outside such a test hands the callee a zero digit size:
+// the decomposition then reads the first prime for every digit (or divides by zero). The count has to be clamped
+// (utils.Max(levelP+1, 1)) or the call guarded.
+func scanPCount(c *core.Ctx) []ob {
+	var out []ob
+	n := 0
+	c.FuncDecls(func(pk *packages.Package, file *ast.File, fd *ast.FuncDecl) {
+		if fd.Body == nil || fileIsTestSupport(c.Program, fd.Pos()) || inExamples(pk) {
+			return
+		}
+		info := pk.TypesInfo
+		fkey := core.FuncKey(pk, fd)
+		pm := parentMapCached(fd)
+		aware := false
+		ast.Inspect(fd.Body, func(x ast.Node) bool {
+			if is, ok := x.(*ast.IfStmt); ok && pPresenceTest(info, is.Cond) {
+				aware = true
+			}
+			return !aware
+		})
+		ast.Inspect(fd.Body, func(x ast.Node) bool {
+			call, ok := x.(*ast.CallExpr)
+			if !ok {
+				return true
+			}
+			f := calleeFunc(info, call)
+			if f == nil {
+				return true
+			}
+			sig, ok := f.Type().(*types.Signature)
+			if !ok {
+				return true
+			}
+			for i, a := range call.Args {
+				if i >= sig.Params().Len() {
+					break
+				}
+				pn := strings.ToLower(sig.Params().At(i).Name())
+				if pn != "nbpi" && pn != "pcount" {
+					continue
+				}
+				n++
+				key := fmt.Sprintf("PCOUNT:%s#%s(%s)", fkey, f.Name(), exprString(a))
+				be, isSum := unparen(a).(*ast.BinaryExpr)
+				raw := isSum && be.Op == token.ADD && strings.Contains(strings.ToLower(exprString(be.X)), "levelp")
+				guarded := false
+				var child ast.Node = call
+				for p := pm[child]; p != nil; child, p = p, pm[p] {
+					if is, ok := p.(*ast.IfStmt); ok && is.Body == child && pPresenceTest(info, is.Cond) {
+						guarded = true
+					}
+				}
+				switch {
+				case !raw:
+					out = append(out, okOb("PCOUNT", key, c.Rel(call.Pos()), "the count is not a bare levelP+1", true))
+				case guarded:
+					out = append(out, okOb("PCOUNT", key, c.Rel(call.Pos()), "passed under a test of the presence of P", true))
+				case !aware:
+					out = append(out, okOb("PCOUNT", key, c.Rel(call.Pos()), "the function never considers P-less parameters: not decided here", false))
+				default:
+					out = append(out, violOb("PCOUNT", key, c.Rel(call.Pos()), fmt.Sprintf("%s handles parameters without an auxiliary modulus, yet passes %s as the number of primes per digit to %s outside any test of P: with levelP == -1 the callee gets 0 and decomposes the first prime for every digit", fkey, exprString(a), f.Name())))
+				}
+			}
+			return true
+		})
+	})
+	c.Stats["pcount_sites"] = n
+	return out
+}
+
+func init() {
+	core.Register(&core.Rule{Name: "PCOUNT", Props: []string{"C04", "C02", "C20"},
+		Doc: "a function that handles P-less parameters does not pass a bare levelP+1 as the number of primes per digit (nbPi/pCount) outside a test of the presence of P",
+		Run: func(c *core.Ctx) []ob {
+			out := scanPCount(c)
+			out = append(out, core.Floor("PCOUNT", nil, "prime-count arguments", c.Stats["pcount_sites"], 4)...)
 			return out
 		}})
 }
